@@ -9,6 +9,9 @@
            the terminal-error paths of http/stream_server.go close (context.Canceled => close
              code only), grpc/stream.go Handler (io.EOF => nil; error travels as the string
              Payload.Error() and is re-split by Payload.Unmarshal).
+   Not modelled: context cancellation, transport failure, bounded channel buffers (Send is taken
+   to be non-blocking as documented), use of a ServerStream after its handler returned, middleware,
+   the freightfluence Sender / Receiver adapters (plumbing between confluence and these calls).
    No proofs in this file: it must keep evaluating when a proof breaks. *)
 From Coq Require Import List NArith Bool String Arith.
 From Synnax Require Import Generated.Consts_C14.
@@ -192,13 +195,16 @@ Definition img_ok (i : image) (o : trip) : bool :=
   (i_cls i =? fst (fst o)) && (i_inner i =? snd (fst o)) &&
   match i_msg i with Some m => msg_eqb m (snd o) | None => true end.
 
-(* profiles: 0 = exactly mock/stream.go; 1 = the documented contract of stream.go (where two
-   documented failure clauses apply at once either result is allowed, and a Send that races the
-   handler's return may succeed or fail) *)
+(* profiles: 0 = exactly mock/stream.go; 2 = exactly http/stream_client.go (websocket: the cached
+   peer error is tested before sendClosed, Send never fails merely because the server is done);
+   3 = exactly grpc/stream.go (closeSent is tested first, then grpc's own end-of-stream);
+   1 = the documented contract of stream.go, which all three refine (where two documented
+   failure clauses apply at once either result is allowed, and a Send that races the handler's
+   return may succeed or fail) *)
 Definition send_guard (prof : N) (s : st) (r : rsl) : bool :=
   match r with
   | ROk =>
-      if prof =? 0 then is_none (c_sendErr s) && is_none (c_recvErr s)
+      if (prof =? 0) || (prof =? 2) then is_none (c_sendErr s) && is_none (c_recvErr s)
       else negb (c_called s) && is_none (c_recvErr s) && negb (c_failed s)
   | RErr c _ _ =>
       if prof =? 0 then
@@ -206,6 +212,13 @@ Definition send_guard (prof : N) (s : st) (r : rsl) : bool :=
         | Some e => c =? e
         | None => (c =? cEOF) && (negb (is_none (c_recvErr s)) || returned s)
         end
+      else if prof =? 2 then
+        if is_none (c_recvErr s)
+        then (c =? cClosed) && match c_sendErr s with Some e => e =? cClosed | None => false end
+        else c =? cEOF
+      else if prof =? 3 then
+        if c_called s then c =? cClosed
+        else (c =? cEOF) && (negb (is_none (c_recvErr s)) || returned s)
       else ((c =? cClosed) && c_called s) || ((c =? cEOF) && returned s)
   | RVal _ => false
   end.
